@@ -49,6 +49,14 @@ def gen_cases(n, seed, unimock, label):
     return cases
 
 
+# inputs of recorded findings (never produced by the random generator)
+KNOWN_PINS = [
+    ("shared_generic_name", "#[::entrait::entrait(pub M)] /*@inv*/\npub mod m { pub fn a<D, T>(deps: &D, t: T) {} pub fn b<D, T>(deps: &D, t: T) {} }\npub fn run() {}\n"),
+    ("no_deps_elided_borrow", "#[::entrait::entrait(pub F, no_deps)] /*@inv*/\nfn f(x: &str) -> &str { x }\npub fn run() {}\n"),
+    ("type_outlives_lifetime", "#[::entrait::entrait(pub F)] /*@inv*/\nfn f<'a, D, T: 'a>(deps: &D, t: &'a T) -> &'a T { t }\npub fn run() {}\n"),
+]
+
+
 def run(tier, seed):
     rep = core.Report(PROP, tier, seed)
     rep.rule = ("random fn/mod signatures of the supported class (deps forms x lifetimes incl. relations x type/const generics with "
@@ -62,11 +70,18 @@ def run(tier, seed):
         cases = gen_cases(n, seed, unimock, label)
         st = selftest.case("selftest_c03" + label)
         ws = core.Workspace(PROP, label, unimock=unimock)
-        ws.extend(cases + [st])
+        pins = [core.Case("c03known%s_%s" % (label, name), src, meta={"pin": name, "nontrivial": True}) for name, src in KNOWN_PINS]
+        ws.extend(cases + pins + [st])
         ws.write()
         b = ws.build()
         ws.run(b["exes"])
         selftest.verify(st)
+        for c in pins:
+            allc[c.id] = c
+            if c.removed is not None:
+                d = (c.removed["diags"] or [{}])[0]
+                rep.violation(c.id, "compile:%s:%s" % (d.get("code"), d.get("message", "")[:70]), "expansion does not compile: %s" % d.get("message", "")[:300],
+                              pinned=c.meta["pin"])
         for c in cases:
             if c.removed is not None:
                 d = (c.removed["diags"] or [{}])[0]
